@@ -238,15 +238,37 @@ func TestC13(t *testing.T) {
 		}
 		if len(p.Steps) > 0 {
 			sc := &plugin.SecureConfig{Checksum: p.Checksum, Hash: newHash(p.Hash)}
+			var origMtime time.Time
 			for i, st := range p.Steps {
 				body := content
 				if st == "tampered" {
 					body = append(append([]byte(nil), content...), '#', 'x')
 				}
-				// replace the file the way an upgrade or an attacker would: atomically
-				tmp := path + ".new"
-				writeExec(tmp, body)
-				os.Rename(tmp, path)
+				if p.InPlace {
+					if st == "tampered" {
+						body = append([]byte(nil), content...)
+						body[len(body)-1] ^= 1 // same length; the last byte is part of a trailing comment
+					}
+					if i == 0 {
+						writeExec(path, content)
+						if fi, err := os.Stat(path); err == nil {
+							origMtime = fi.ModTime()
+						}
+					}
+					// same inode, same size, and the modification time put back
+					syscall.ForkLock.RLock()
+					if f, err := os.OpenFile(path, os.O_WRONLY|os.O_TRUNC, 0); err == nil {
+						f.Write(body)
+						f.Close()
+					}
+					syscall.ForkLock.RUnlock()
+					os.Chtimes(path, origMtime, origMtime)
+				} else {
+					// replace the file the way an upgrade or an attacker would: atomically
+					tmp := path + ".new"
+					writeExec(tmp, body)
+					os.Rename(tmp, path)
+				}
 				md := filepath.Join(d, "m"+strconv.Itoa(i))
 				os.MkdirAll(md, 0o755)
 				var so spec.C13StepObs
